@@ -11,7 +11,7 @@ pub fn plan() -> Plan {
         meta: Meta {
             property: "C01",
             level: "exploration",
-            rule: "model differential: after EVERY step of a history, read() and contains() for every key of the universe and two never-written keys are compared with the sequential reference model (rank = ts desc, blob id desc, append pos desc). Histories: (a) seeded random (2-4 keys, timestamps 0..4, puts/deletes/bursts of 6-12 tied versions/rotations/close/restore/dump/eager+lazy restart with random index removal) over key length {4,8,32} x bloom on/off x group size x runtime flavour; (b) ALL histories of fixed length over a 6-symbol alphabet for one key (every shorter history is a checked prefix). A history counts as non-trivial when some key had >=2 records with equal top timestamp or records in >=2 blobs; distinct = hash of (history, configuration).",
+            rule: "model differential: after EVERY step of a history, read() and contains() for every key of the universe and two never-written keys are compared with the sequential reference model (rank = ts desc, blob id desc, append pos desc). Histories: (a) seeded random (2-4 keys, timestamps 0..4, puts/deletes/bursts of 6-12 tied versions/rotations/close/restore/dump/eager+lazy restart with random index removal) over key length {4,8,32} x bloom on/off x group size x runtime flavour; (b) ALL histories of fixed length over a 6-symbol alphabet for one key (every shorter history is a checked prefix). A quarter of the random histories rotate automatically (record limit 1-4 or size limit 100-900 bytes with a 0 ms rotation debounce; every rotation the worker performs is mirrored into the model, a rotation below the limit is a mismatch); one in eight starts with 9-14 small blobs (two-digit blob ids, several filter levels); one in twelve starts with a fat blob of 70-140 records (multi-leaf on-disk index). A history counts as non-trivial when some key had >=2 records with equal top timestamp or records in >=2 blobs; distinct = hash of (history, configuration).",
             assumptions: vec![
                 "rotation is driven through the lifecycle API / worker barrier (automatic size rotation is time-debounced; exercised in C08/C13)",
                 "verdict holds for the executions produced by this seed only",
